@@ -58,6 +58,8 @@ inductive IPat where
   | var (x : Nat) | wild | unit | bool | int | str
   /-- `PInt8 … PUInt64`: an integer literal pattern with a suffix (`check_pat_typed_int`) -/
   | tint (lit : Ty)
+  /-- `PConstr`: `info` as for `IExpr.constr` -/
+  | constr (info : Option (Option (Ty × Nat))) (args : List IPat)
   | tuple (ps : List IPat)
   deriving Repr, Inhabited
 
@@ -99,10 +101,11 @@ inductive TPat where
   | wild (ty : Ty)
   | lit (k : Ty) (ty : Ty)
   | tuple (ps : List TPat) (ty : Ty)
+  | constr (ps : List TPat) (ty : Ty)
   deriving Inhabited
 
 def TPat.ty : TPat → Ty
-  | .var _ t => t | .wild t => t | .lit _ t => t | .tuple _ t => t
+  | .var _ t => t | .wild t => t | .lit _ t => t | .tuple _ t => t | .constr _ t => t
 
 mutual
 /-- `tast::Expr` as `check.rs` returns it (types before substitution).  `letE` also keeps the type the
@@ -236,6 +239,16 @@ def isLogic : BinOp → Bool
 
 /-! ### patterns — `check_pat` -/
 
+/-- the parameter types / the result type of an instantiated constructor type (a unit variant has its enum type) -/
+def ctorParams : Ty → List Ty
+  | .func ps _ => ps
+  | _ => []
+def ctorRet : Ty → Ty
+  | .func _ r => r
+  | t => t
+
+
+
 def freshN : Nat → St → List Ty × St
   | 0, s => ([], s)
   | n + 1, s =>
@@ -263,6 +276,22 @@ def checkPat : IPat → Ty → Scopes → St → TPat × Scopes × St
   | .wild, ty, Γ, s =>
     let v := s.fresh
     (.wild v.1, Γ, v.2.push (.eq v.1 ty))
+  | .constr info args, ty, Γ, s =>
+    -- `check_pat_constructor`: a failed lookup / a wrong arity falls back to `check_pat_wild`
+    match (match info with
+           | some (some (cty, arity)) => if arity = args.length then some cty else none
+           | _ => none) with
+    | none =>
+      let d := match info with
+        | none => IDiag.ctorAmbiguous
+        | some none => IDiag.ctorNotFound
+        | some (some _) => IDiag.ctorArity
+      let v := (s.mark.diag d).fresh
+      (.wild v.1, Γ, v.2.push (.eq v.1 ty))
+    | some cty =>
+      let it := s.mark.inst cty
+      let r := checkPatZip args (ctorParams it.1) Γ it.2
+      (.constr r.1 (ctorRet it.1), r.2.1, r.2.2.push (.eq (ctorRet it.1) ty))
   | .tuple ps, ty, Γ, s =>
     let el := tupleElemTys ps.length ty s
     let r := checkPatZip ps el.1 Γ el.2
@@ -394,14 +423,6 @@ def callParamTys (inst : Ty) (nargs : Nat) : Option (List Ty) :=
   match inst with
   | .func ps _ => if ps.length = nargs && !ps.isEmpty then some ps else none
   | _ => none
-
-/-- the parameter types / the result type of an instantiated constructor type (a unit variant has its enum type) -/
-def ctorParams : Ty → List Ty
-  | .func ps _ => ps
-  | _ => []
-def ctorRet : Ty → Ty
-  | .func _ r => r
-  | t => t
 
 /-- `Ty::constr_name` / `util::try_constr_name` -/
 def constrName : Ty → Option String
